@@ -89,6 +89,48 @@ func fpInto(fp Fingerprint, fn *ssa.Function, home *ssa.Package, depth int, seen
 				}
 				return
 			}
+			// the search helpers of package slices are the very loops they replace:
+			// Contains/Index(xs, K) ≡ one loop comparing each element with K;
+			// ContainsFunc/IndexFunc(xs, f) ≡ one loop applying f
+			if callee != nil && fnPkgPath(callee) == "slices" {
+				base := callee.Name()
+				if o := callee.Origin(); o != nil {
+					base = o.Name()
+				}
+				switch base {
+				case "Contains", "Index":
+					if len(cc.Args) == 2 {
+						fp.add("loop")
+						if base == "Contains" && returnedDirectly(x) {
+							fp.add("return true")
+							fp.add("return false")
+						}
+						if k, ok := cc.Args[1].(*ssa.Const); ok && k.Value != nil {
+							fp.add("cmp == " + constStr(k))
+						}
+						return
+					}
+				case "ContainsFunc", "IndexFunc":
+					if len(cc.Args) == 2 {
+						fp.add("loop")
+						if base == "ContainsFunc" && returnedDirectly(x) {
+							fp.add("return true")
+							fp.add("return false")
+						}
+						switch p := cc.Args[1].(type) {
+						case *ssa.Function:
+							if p.Pkg == home || p.Parent() != nil {
+								fpInto(fp, p, home, depth+1, seen)
+							} else {
+								fp.add("call " + funcCallName(p) + "()")
+							}
+						case *ssa.MakeClosure:
+							fpInto(fp, p.Fn.(*ssa.Function), home, depth+1, seen)
+						}
+						return
+					}
+				}
+			}
 			name := staticCalleeName(cc)
 			if name == "" {
 				name = "dynamic"
@@ -224,3 +266,18 @@ func rootIs(v ssa.Value, root ssa.Value) bool {
 }
 
 var _ = types.Typ
+
+// returnedDirectly: the call's value is what the enclosing function returns
+// (return slices.Contains(…)), so it stands for a loop ending in return true /
+// return false.
+func returnedDirectly(call *ssa.Call) bool {
+	if call.Referrers() == nil {
+		return false
+	}
+	for _, ref := range *call.Referrers() {
+		if _, ok := ref.(*ssa.Return); ok {
+			return true
+		}
+	}
+	return false
+}
